@@ -414,6 +414,11 @@ class Harness:
         return (self.cn(*roots), tuple(w.triggers[:1]), w.taint_steps, tuple(w.S.res),
                 tuple(tuple(w.S.comps[k]) for k in self.keys))
 
+    def refstate(self, w):
+        return (tuple(w.S.res), tuple(tuple(w.S.comps[k]) for k in self.keys), tuple(w.K.res),
+                tuple((T, tuple(v)) for T, v in w.K.pools.items()), tuple(sorted(w.K.has_pos.items())),
+                getattr(w, 'b_res', None))
+
     def outcome(self, w):
         return repr(w.last)
 
